@@ -105,7 +105,7 @@ GRP_MAPS = {'int': [1, 2, 3], 'str': ['g1', 'g2', 'g3']}
 DTYPES = {'float64': 1, 'float32': 1, 'int64': 1, 'int32': 1}
 NARROW = {'int8': 40, 'uint8': 60, 'int16': 5000, 'int32': 20000}
 BASE = dict(cont='list', lab='int', dtype='float64', order='C', extra=True, scale=1, flab='int',
-            noise='array', api='calc_rdm', wrap=False, tdesc='time', window=False)
+            noise='array', api='calc_rdm', wrap=False, tdesc='time', window=False, twice=False)
 
 
 def flavour(rng, *, narrow=False, nonneg=True):
@@ -121,7 +121,9 @@ def flavour(rng, *, narrow=False, nonneg=True):
              api=['calc_rdm', 'direct'][rng.integers(2)],
              wrap=bool(rng.integers(4) == 0),      # a single dataset passed as a one-element list
              tdesc=['time', 'tp'][int(rng.integers(3) == 0)],   # movie: time_descriptor= another descriptor
-             window=bool(rng.integers(4) == 0))    # movie: subset_time(t_from, t_to) before the call
+             window=bool(rng.integers(4) == 0),    # movie: subset_time(t_from, t_to) before the call
+             twice=bool(rng.integers(3) == 0))     # a priming call (remove_mean=True where it exists) on the SAME dataset / noise
+                                                   # objects first: the values depend on the data only, not on earlier calls
     if narrow:
         names = [n for n in NARROW if nonneg or n != 'uint8']
         f['dtype'] = names[rng.integers(len(names))]
@@ -221,10 +223,15 @@ def call_impl(inp, fl):
     cvd = FOLD if src == 'explicit' else None
     if mode == 'single':
         ds = make_dataset(inp['lab'], inp['x'], inp['ext'], fl, fold=inp['fold'] if cvd else None)
+        noise = _noise(inp['prec'])
         if unbal:
-            return calc_rdm_unbalanced(ds, method=method, descriptor=desc, noise=_noise(inp['prec']), cv_descriptor=cvd,
+            return calc_rdm_unbalanced(ds, method=method, descriptor=desc, noise=noise, cv_descriptor=cvd,
                                        prior_lambda=lam, prior_weight=w)
-        return calc_rdm([ds] if fl.get('wrap') else ds, method=method, descriptor=desc, noise=_noise(inp['prec']),
+        arg = [ds] if fl.get('wrap') else ds
+        if fl.get('twice'):
+            calc_rdm(arg, method=method, descriptor=desc, noise=noise, cv_descriptor=cvd, prior_lambda=lam,
+                     prior_weight=w, remove_mean=True)
+        return calc_rdm(arg, method=method, descriptor=desc, noise=noise,
                         cv_descriptor=cvd, prior_lambda=lam, prior_weight=w, remove_mean=inp['rm'])
     if mode == 'list':
         d1 = make_dataset(inp['lab'], inp['x'], None, fl, subj=3, fold=inp['fold'] if cvd else None)
@@ -235,6 +242,9 @@ def call_impl(inp, fl):
         else:
             noise = [n1, n2]
         dsl = [d1, d2] if fl['cont'] == 'list' else (d1, d2)
+        if fl.get('twice') and not unbal:
+            calc_rdm(dsl, method=method, descriptor=desc, noise=noise, cv_descriptor=cvd,
+                     prior_lambda=lam, prior_weight=w, remove_mean=True)
         if unbal:
             return calc_rdm_unbalanced(dsl, method=method, descriptor=desc, noise=noise, cv_descriptor=cvd,
                                        prior_lambda=lam, prior_weight=w)
@@ -269,6 +279,9 @@ def call_impl(inp, fl):
         else:
             noise = _noise(inp['prec'])
         cvd = FOLD if explicit else None
+        if fl.get('twice'):
+            calc_rdm(ds, method=method, descriptor=COND, noise=noise, cv_descriptor=cvd,
+                     prior_lambda=lam, prior_weight=w, remove_mean=True)
         if method == 'crossnobis' and fl['api'] == 'direct':
             return _rdm.calc_rdm_crossnobis(ds, COND, noise=noise, cv_descriptor=cvd, remove_mean=inp['rm'])
         return calc_rdm(ds, method=method, descriptor=COND, noise=noise, cv_descriptor=cvd,
@@ -1127,7 +1140,7 @@ def record_trace(seed, mode):
         return ('skip', 'generator constraints')
     fl = flavour(rng)
     fl['dtype'] = ['float64', 'int64'][rng.integers(2)]
-    fl.update(wrap=False, tdesc='time', window=False)
+    fl.update(wrap=False, tdesc='time', window=False, twice=False)
     if mode == 'cvmany':
         fl['lab'] = variant or 'str'
         fl['class'] = 'cvmany'
